@@ -131,6 +131,15 @@ package yqlib
 //@   loop 1:
 //@     invariant @plain-so-far needsQuoting || (shMode(prefixRunes(value, rangepos())) == 0 && shVal(prefixRunes(value, rangepos())) == prefixRunes(value, rangepos()) && shOk(prefixRunes(value, rangepos())))
 
+// -o=shell: every scalar becomes one line NAME=VALUE whose VALUE is what quoteValue made of the scalar's text,
+// whatever the scalar's tag (C17)
+//@ func (*shellVariablesEncoder).doEncode
+//@   props C17
+//@   nosafety
+//@   noframe
+//@   at quoteValue: assert @the-scalars-own-text-is-quoted {C17} arg0 == node.Value
+//@   at WriteString: assert @a-line-is-NAME-equals-quoted-VALUE {C17} arg1 == ite(path == "", "value", path) + "=" + resultOf(quoteValue) + "\n"
+
 // ---------------------------------------------------------------------------------------------
 // expression_postfix.go (shunting yard)
 
